@@ -130,7 +130,9 @@ def accumulate(ctx, case):
 
 REAL_TEXTS = [('.m1', ['m1'], [], None), ('.m1, .m2', ['m1', 'm2'], [], None), ('.m2 ! .m3', ['m2'], ['m3'], None), ('! .m3', [], ['m3'], 'implicit'),
               ('.m3, .m4', ['m3', 'm4'], [], None), ('*', [], [], 'explicit'), ('!', None, None, None), ('.m1(', 'bad', None, None), ('! .m4', [], ['m4'], 'implicit'),
-              ('"', 'bad', None, None), ('.m1(="abc)', 'bad', None, None), ('[.m1', 'bad', None, None), ('a.b.c', 'bad', None, None), ('x@y@z', 'bad', None, None), ('.m1(x=y=z)', 'bad', None, None)]
+              ('"', 'bad', None, None), ('.m1(="abc)', 'bad', None, None), ('[.m1', 'bad', None, None), ('a.b.c', 'bad', None, None), ('x@y@z', 'bad', None, None), ('.m1(x=y=z)', 'bad', None, None),
+              # connection-qualified alternatives / exclusions (the connection is named A)
+              ('A: .m5', ['m5'], [], None), ('! A:.m4', [], ['m4'], 'implicit')]
 
 
 def real_sequences(ctx, case):
